@@ -143,6 +143,7 @@ type Interp struct {
 	initObjs   int
 	labelsSeen map[string]bool
 	inInit      *ssa.Package
+	log2Exp     map[int]Int
 	InitNotes   []string
 	pendingBind []Val
 }
@@ -164,7 +165,10 @@ func New(prog *ssa.Program, opt Options) (*Interp, error) {
 		it.opt.Backend = "z3"
 	}
 	if it.opt.TimeoutMs == 0 {
-		it.opt.TimeoutMs = 20000
+		it.opt.TimeoutMs = 10000
+		if s := os.Getenv("VERIF_QUERY_MS"); s != "" {
+			fmt.Sscan(s, &it.opt.TimeoutMs)
+		}
 	}
 	if it.opt.MaxSteps == 0 {
 		it.opt.MaxSteps = 4000000
@@ -238,6 +242,7 @@ func (it *Interp) choose(conds []*sym.Term, complementary bool) int {
 		it.addPC(conds[alt])
 		return alt
 	}
+	it.checkDeadline()
 	it.sol.SyncPC(it.pc)
 	var feas []int
 	for i, c := range conds {
@@ -333,6 +338,12 @@ func (it *Interp) concretize(v Int, max int, why string) uint64 {
 	return uint64(vals[0])
 }
 
+func (it *Interp) checkDeadline() {
+	if !it.opt.Deadline.IsZero() && time.Now().After(it.opt.Deadline) {
+		it.endPath("time budget exhausted", true)
+	}
+}
+
 func (it *Interp) noteIncomplete(why string) {
 	for _, s := range it.res.Incomplete {
 		if s == why {
@@ -402,6 +413,7 @@ func (it *Interp) oblige(cond Bool, label, kind, detail string) {
 		it.assumeAfter(cond.T)
 		return
 	}
+	it.checkDeadline()
 	it.sol.SyncPC(it.pc)
 	neg := it.ctx.Not(cond.T)
 	r := it.sol.CheckWith(neg)
